@@ -707,7 +707,7 @@ def check_probe(fam: str, c: dict, got: typing.Dict[str, str], flags: typing.Dic
         if got.get(k) != v:
             probs.append({'key': k, 'got': got.get(k), 'pydsdl': v, 'model': flags.get(k), 'impl_wrong': True})
     for k, v in flags.items():            # model (scanned branches) vs. DSDL
-        if k in exp and v != exp[k]:
+        if k in exp and v != exp[k] and not any(p['key'] == k for p in probs):
             probs.append({'key': k, 'got': got.get(k), 'pydsdl': exp[k], 'model': v, 'impl_wrong': got.get(k) != exp[k]})
     extra = set(got) - set(exp)
     if extra:
